@@ -4,8 +4,9 @@ READY = True
 SPEC = {
     "targets": ["Properties/C20.vo", "Run/C20.vo"],
     "theorems": {"Properties.C20": ["C20_dependency_iff", "C20_details_exact", "C20_removed_detected", "C20_removed_reaches_check", "C20_removed_with_dependants_reported", "C20_dispatch_tables", "C20_nonvacuous"]},
-    "harness_args": lambda tier: ["C20", "--n", 250 if tier == "quick" else 5000, "--histories", 200 if tier == "quick" else 5000],
-    "search_args": lambda tier: ["C20", "--n", 600, "--histories", 600],
+    "harness_args": lambda tier: ["C20", "--n", 250 if tier == "quick" else 5000, "--histories", 200 if tier == "quick" else 4000,
+                                  "--inproc", 40 if tier == "quick" else 300],
+    "search_args": lambda tier: ["C20", "--n", 600, "--histories", 600, "--inproc", 20],
     "level": "proof",
     "trusted_base": [
         "Coq 8.16.1 kernel + VM (vm_compute for the non-vacuity example and the correspondence evaluation); no axioms",
